@@ -1,44 +1,36 @@
-"""C29 -- resource resolution terminates on reference cycles of any length.
+"""C29 -- resource resolution terminates on reference cycles of any length and returns the reachable values.
 
-Rule.  The call graph of ARSCParser.ResourceResolver (edges `self.m(...)`) is built and its
-recursive strongly connected components are computed (they are *found*, not named).  Every
-recursive SCC must carry a termination certificate of the "growing visited state" kind:
+Rule (interpretation on a finite family of abstract resource tables; the repository is never imported).
+The methods of ARSCParser.ResourceResolver are *interpreted* by agstatic/minipy.py (helper methods, static methods,
+early returns, try/finally, parameters with defaults ... are simply executed) against a model of the resource table:
+`resources.get_res_configs(id, config)` is answered from an abstract table whose entries are instances of the
+repository's own ARSCResTableEntry / ARSCComplex / ARSCResStringPoolRef classes with their fields set (their methods
+is_complex / is_compact / is_reference / get_data are interpreted from the source; only format_value is replaced by
+a label).  The family of tables: reference cycles of length 1..5, cycles whose members have two configurations with the
+back reference in the second one, cycles through complex entries, a self-referencing complex entry, a diamond, a
+chain, null and dangling references, a compact entry; resolved for all configurations and for one configuration, and
+twice in a row on the same resolver.
 
-  cut     a checkpoint function Fc lies on every cycle of the SCC (SCC minus Fc is acyclic);
-  check   Fc contains `if K in S` / `if K not in S` (S a `self.<attr>` or a parameter that is
-          threaded through the SCC) -- or `if D > bound` for a depth parameter D -- such that
-          every recursive call statement of Fc is reachable only through the not-seen edge and
-          unreachable from the seen edge;
-  grow    on every path from the not-seen edge to a recursive call K is put into S
-          (`S.add(K)`, `S = S | {K}`, or the call passes `S | {K}` / `D + 1`), and S is not
-          shrunk or re-created between that point and the call;
-  thread  a self attribute is not re-assigned inside the SCC; a parameter is passed on by
-          every call edge of the SCC;
-  fresh   every entry into the SCC from outside creates the state afresh (`self.S = set()`
-          dominating the call, or an empty/None argument).
-
-Then the keys on the recursion stack are pairwise distinct, and since they are resource ids of a
-finite table the recursion depth is bounded.  If no certificate exists the SCC is reported
-(rule `cycle-guard`, or a more specific rule naming the missing part).  Independently, while
-no certificate exists, the weaker data guard for cycles of length one (the id about to be
-resolved is compared with the id of the entry being expanded, and the equal arm cannot reach
-the recursive call) is required (rule `self-reference`).
+For every table:  (terminates) `resolve(id)` must return -- CPython's recursion limit of 1000 frames is emulated, so
+"RecursionError" is a positively established outcome; (returns-reachable-values) every value reachable from the id
+in the table (computed by the checker's own graph search) occurs in the result; (fresh-state) a second `resolve` on
+the same resolver gives the same values.  Any other exception or anything the interpreter cannot model is exit 2.
 """
 from __future__ import annotations
 
 import ast
+import sys
+import threading
 
 import networkx as nx
 
-from ..cfg import CFG
-from ..model import AXML, AnalysisError, norm, parent, walk_no_nested
-from ..pathkit import (NotEvaluable, truths, Defs, reach, branch_edges, stmt_of, run_mutants,
-                       rename_locals, flip_ifs, link_parents)
+from ..minipy import Interp, Obj, ClassV, FuncV, Native, PyRaise, Sym
+from ..model import AXML, AnalysisError, Cls, Func, norm, parent, walk_no_nested
+from ..pathkit import NotEvaluable, run_mutants, rename_locals, flip_ifs, link_parents
 
 RESOLVER = "ResourceResolver"
-FRESH_CALLS = ("set", "dict", "list", "frozenset", "collections.OrderedDict", "OrderedDict")
-SHRINK = ("remove", "discard", "clear", "pop", "popitem", "difference_update", "intersection_update")
-GROW = ("add", "append", "update")
+PY_RECURSION_LIMIT = 1000
+OWN_MUTATION_ADEQUACY = True   # thorough() below mutates the resolver's methods in memory (pathkit.run_mutants)
 
 
 class F:
@@ -73,15 +65,63 @@ def find_class(module, name):
 
 def self_calls(fn_node):
     return [c for c in walk_no_nested(fn_node) if isinstance(c, ast.Call) and isinstance(c.func, ast.Attribute)
-            and isinstance(c.func.value, ast.Name) and c.func.value.id == "self"]
+            and isinstance(c.func.value, ast.Name) and c.func.value.id in ("self", "cls")]
 
 
-def is_fresh(e):
-    if isinstance(e, (ast.Set, ast.List, ast.Dict, ast.Tuple)):
-        return not (getattr(e, "elts", None) or getattr(e, "keys", None))
-    if isinstance(e, ast.Call) and ast.unparse(e.func) in FRESH_CALLS and not e.args and not e.keywords:
-        return True
-    return False
+# ---------------------------------------------------------------------------- abstract tables
+# entry spec: ("ref", id) | ("leaf", n) | ("complex", [item specs]) | ("compact", n) ; table: id -> [(config name, entry spec)]
+def _cycle(n):
+    return {i: [("c", ("ref", i % n + 1))] for i in range(1, n + 1)}
+
+
+TABLES = [
+    ("self-reference", {1: [("c", ("ref", 1))]}, 1),
+    ("cycle of length 2", _cycle(2), 1),
+    ("cycle of length 3", _cycle(3), 1),
+    ("cycle of length 4", _cycle(4), 2),
+    ("cycle of length 5", _cycle(5), 1),
+    ("cycle of length 2, two configurations, back reference in the second", {
+        1: [("c1", ("leaf", 11)), ("c2", ("ref", 2))], 2: [("c1", ("leaf", 12)), ("c2", ("ref", 1))]}, 1),
+    ("cycle of length 3, two configurations, back reference in the first", {
+        1: [("c1", ("ref", 2)), ("c2", ("leaf", 21))], 2: [("c1", ("ref", 3)), ("c2", ("leaf", 22))], 3: [("c1", ("ref", 1)), ("c2", ("leaf", 23))]}, 1),
+    ("complex entry whose item references back", {1: [("c", ("complex", [("ref", 2), ("leaf", 31)]))], 2: [("c", ("ref", 1))]}, 1),
+    ("complex entry referencing itself", {1: [("c", ("complex", [("leaf", 41), ("ref", 1), ("leaf", 42)]))]}, 1),
+    ("two complex entries referencing each other", {1: [("c", ("complex", [("ref", 2), ("leaf", 51)]))], 2: [("c", ("complex", [("leaf", 52), ("ref", 1)]))]}, 1),
+    ("diamond", {1: [("c", ("complex", [("ref", 2), ("ref", 3)]))], 2: [("c", ("ref", 4))], 3: [("c", ("ref", 4))], 4: [("c", ("leaf", 61))]}, 1),
+    ("chain", {1: [("c", ("ref", 2))], 2: [("c", ("ref", 3))], 3: [("c", ("leaf", 71))]}, 1),
+    ("null and dangling references", {1: [("c", ("complex", [("ref", 0), ("ref", 99), ("leaf", 81)]))]}, 1),
+    ("compact entry and plain value", {1: [("c1", ("compact", 5)), ("c2", ("leaf", 91))]}, 1),
+    ("cycle with a branch to a value", {1: [("c", ("ref", 2))], 2: [("c", ("complex", [("ref", 1), ("ref", 3)]))], 3: [("c", ("leaf", 95))]}, 1),
+]
+
+
+def reachable_leaves(table, start, config=None):
+    seen, out, todo = set(), set(), [start]
+    while todo:
+        r = todo.pop()
+        if r in seen:
+            continue
+        seen.add(r)
+        for cfg, e in table.get(r, []):
+            if config is not None and cfg != config:
+                continue
+            items = e[1] if e[0] == "complex" else [e]
+            for it in items:
+                if it[0] == "ref" and it[1]:
+                    todo.append(it[1])
+                elif it[0] == "leaf":
+                    out.add("leaf#%d" % it[1])
+    return out
+
+
+def flat_strings(v, out=None):
+    out = out if out is not None else set()
+    if isinstance(v, str):
+        out.add(v)
+    elif isinstance(v, (list, tuple)):
+        for x in v:
+            flat_strings(x, out)
+    return out
 
 
 class Core:
@@ -90,487 +130,230 @@ class Core:
         self.m = ctx.mod(AXML)
         cls, outer = find_class(self.m, RESOLVER)
         ctx.require(cls is not None, "anchor vanished: class %s" % RESOLVER)
-        self.cls = cls
+        self.cls_node, self.outer = cls, outer
         if funcs is None:
             funcs = {n.name: F(self.m, cls, n, outer) for n in cls.body if isinstance(n, (ast.FunctionDef, ast.AsyncFunctionDef))}
         self.funcs = funcs
 
+    # ------------------------------------------------------------------ model
+    def resolver_cls(self):
+        c = Cls(self.m, RESOLVER, self.cls_node)
+        for name, f in self.funcs.items():
+            c.methods[name] = Func(self.m, f.qualname, f.node, c)
+        for n in self.cls_node.body:
+            if isinstance(n, ast.Assign):
+                for t in n.targets:
+                    if isinstance(t, ast.Name):
+                        c.attrs[t.id] = n.value
+        return c
+
+    def build(self, it, table):
+        """model objects of the repository's own entry classes"""
+        m = self.m
+        ref_t = it.module_global(m, "TYPE_REFERENCE")
+        ent, cpx, ref = m.cls("ARSCResTableEntry"), m.cls("ARSCComplex"), m.cls("ARSCResStringPoolRef")
+        fcomplex = it.class_attr(ent, "FLAG_COMPLEX", ent.lookup_attr("FLAG_COMPLEX"))
+        fcompact = it.class_attr(ent, "FLAG_COMPACT", ent.lookup_attr("FLAG_COMPACT"))
+        if not all(isinstance(x, int) for x in (ref_t, fcomplex, fcompact)):
+            raise NotEvaluable("TYPE_REFERENCE / FLAG_COMPLEX / FLAG_COMPACT are not integer constants")
+        pkg = Obj(None, "package")
+        cfgs, rows = {}, {}
+
+        def item(spec):
+            o = Obj(ref)
+            o.attrs.update(parent=pkg, start=0, size=8, res0=0)
+            if spec[0] == "ref":
+                o.attrs.update(data_type=ref_t, data=spec[1])
+            else:
+                o.attrs.update(data_type=0x10 if ref_t != 0x10 else 0x11, data=spec[1])
+            return o
+
+        for rid, ents in table.items():
+            rows[rid] = []
+            for cfg, spec in ents:
+                c = cfgs.setdefault(cfg, Obj(None, "config_" + cfg))
+                e = Obj(ent)
+                e.attrs.update(mResId=rid, parent=pkg, start=0, size=8, index=0, flags=0)
+                if spec[0] == "complex":
+                    x = Obj(cpx)
+                    x.attrs.update(parent=pkg, start=0, id_parent=0, count=len(spec[1]), items=[(0x01000000 + i, item(s)) for i, s in enumerate(spec[1])])
+                    e.attrs.update(flags=fcomplex, item=x)
+                elif spec[0] == "compact":
+                    e.attrs.update(flags=fcompact, key=8, data=spec[1], datatype=3)
+                else:
+                    e.attrs.update(key=item(spec))
+                rows[rid].append((c, e))
+        return cfgs, rows
+
+    def scenario(self, name, table, start, config):
+        """-> list of outcomes for: resolve(start), resolve(start) again on the same resolver"""
+        cls = self.resolver_cls()
+        state = {}
+
+        def stub(it, fv, frame_locals, node):
+            if fv.qualname == "ARSCResStringPoolRef.format_value":
+                return "leaf#%s" % frame_locals["self"].attrs.get("data")
+            return NotImplemented
+
+        def depth(it, fv, node):
+            state["stack"] = list(it.stack[-12:])
+            raise PyRaise("RecursionError", node)
+
+        it = Interp(self.ctx.repo, None, {"func": stub, "depth": depth}, (), max_steps=400000)
+        it.max_depth = PY_RECURSION_LIMIT - 5     # frames of the callers (get_resolved_res_configs, get_app_name, ...) are not modelled
+        cfgs, rows = self.build(it, table)
+
+        def get_res_configs(it_, args, kwargs, node):
+            rid = args[0] if args else kwargs.get("rid")
+            cfg = args[1] if len(args) > 1 else kwargs.get("config")
+            if isinstance(rid, (Obj, Sym)):
+                raise NotEvaluable("get_res_configs called with %r" % (rid,))
+            out = rows.get(rid, [])
+            if cfg is not None:
+                out = [(c, e) for c, e in out if c is cfg]
+            return list(out)
+
+        res = Obj(None, "resources")
+        res.attrs["get_res_configs"] = Native("resources.get_res_configs", get_res_configs)
+        wanted = cfgs[config] if config is not None else None
+        outcomes = []
+        try:
+            resolver = it.call(ClassV(cls), [res, wanted], {})
+        except PyRaise as e:
+            raise NotEvaluable("constructing the resolver raised %s" % e.name)
+        for k in range(2):
+            try:
+                r = it.call(it.get_attr(resolver, "resolve"), [start], {})
+                if it.choices:
+                    raise NotEvaluable("the resolver's control flow depends on values the table model leaves open")
+                outcomes.append(("ok", r))
+            except PyRaise as e:
+                outcomes.append(("raise", e.name, e.node, state.get("stack", [])))
+                break
+        return outcomes
+
     # ------------------------------------------------------------------
-    def graph(self):
+    def run(self):
+        ctx = self.ctx
+        ctx.count("resolver_methods", len(self.funcs))
+        for f in self.funcs.values():
+            ctx.analysed(f)
+        # recursion structure (evidence only)
         g = nx.DiGraph()
         for name, f in self.funcs.items():
             g.add_node(name)
             for c in self_calls(f.node):
                 if c.func.attr in self.funcs:
                     g.add_edge(name, c.func.attr)
-        return g
-
-    def run(self):
-        ctx = self.ctx
-        g = self.graph()
-        ctx.count("resolver_methods", g.number_of_nodes())
         sccs = [sorted(c) for c in nx.strongly_connected_components(g) if len(c) > 1 or any(g.has_edge(n, n) for n in c)]
-        for scc in sccs:
-            ctx.count("recursive_sccs")
-            for n in scc:
-                ctx.analysed(self.funcs[n])
-            self.check_scc(g, scc)
+        ctx.count("recursive_sccs", len(sccs))
+        ctx.note("recursive SCCs of the resolver's call graph: %s" % (sccs or "none (iterative)"))
+        ctx.require("resolve" in self.funcs, "anchor vanished: ResourceResolver.resolve")
+        fres = self.funcs["resolve"]
+        scen = []
+        for name, table, start in TABLES:
+            scen.append((name, table, start, None))
+        scen.append(("cycle of length 2, two configurations, back reference in the second / one configuration", TABLES[5][1], 1, "c2"))
+        scen.append(("cycle of length 3, two configurations / one configuration", TABLES[6][1], 1, "c1"))
+        nonterm = 0
+        only = getattr(self, "only_tables", None)
+        for name, table, start, config in scen:
+            if only is not None and name not in only:
+                continue
+            if nonterm >= 3:
+                ctx.note("stopped after three non-terminating tables (each costs a full emulated recursion)")
+                break
+            ctx.count("tables")
+            try:
+                outs = self.scenario(name, table, start, config)
+            except NotEvaluable as e:
+                raise AnalysisError("ResourceResolver left the interpretable fragment on table `%s`: %s" % (name, e))
+            label = "table `%s`, resolve(%d)%s" % (name, start, "" if config is None else " for configuration %s" % config)
+            expected = reachable_leaves(table, start, config)
+            bad = False
+            for k, o in enumerate(outs):
+                if o[0] == "raise":
+                    if o[1] != "RecursionError":
+                        raise AnalysisError("%s: interpreted resolve() ended in %s at `%s`: not a modelled outcome" % (label, o[1], norm(o[2])[:60] if o[2] is not None else "?"))
+                    cyc = []
+                    for q in o[3]:
+                        s = q.split(".")[-1]
+                        if s not in cyc:
+                            cyc.append(s)
+                    f = self.funcs.get(o[3][-1].split(".")[-1] if o[3] else "resolve", fres)
+                    ctx.check("terminates", label, False, f, "recursion cycle: " + " -> ".join(sorted(cyc)),
+                              "%s does not terminate: the interpreted call stack exceeds CPython's recursion limit of %d frames "
+                              "(repeating %s) -- RecursionError instead of a result" % (label, PY_RECURSION_LIMIT, " -> ".join(cyc)),
+                              node=o[2], witness=dict(table={str(k_): [(c, list(e) if e[0] != "complex" else ["complex", e[1]]) for c, e in v] for k_, v in table.items()}, start=start))
+                    bad = True
+                    nonterm += 1
+                    break
+            if bad:
+                continue
+            ctx.ob("terminates", label, True, "%d resolve() calls return (interpreted, %d reachable values)" % (len(outs), len(expected)))
+            got = [flat_strings(o[1]) for o in outs]
+            miss = sorted(expected - got[0])
+            ctx.check("returns-reachable-values", label, not miss, fres, "resolve() on `%s`: reachable values missing" % name,
+                      "%s returns %s but the table makes %s reachable: %s missing" % (label, sorted(x for x in got[0] if x.startswith("leaf#")), sorted(expected), miss),
+                      node=fres.node, detail="result contains all of %s" % sorted(expected))
+            if len(got) > 1 and not miss:
+                ctx.check("fresh-state", label, expected <= got[1], fres, "second resolve() on `%s` differs" % name,
+                          "a second resolve(%d) on the same resolver loses values (%s instead of %s): state of the first resolution leaks into the second"
+                          % (start, sorted(x for x in got[1] if x.startswith("leaf#")), sorted(expected)), node=fres.node,
+                          detail="second resolve() on the same resolver returns the same values")
         return sccs
 
-    # ------------------------------------------------------------------
-    def rec_calls(self, f, scc):
-        return [c for c in self_calls(f.node) if c.func.attr in scc]
 
-    def candidates(self, scc):
-        """(Fc, kind, S text, K text or None, If node, compare node)"""
-        out = []
-        for n in scc:
-            f = self.funcs[n]
-            params = f.params()
-            for G in (x for x in walk_no_nested(f.node) if isinstance(x, ast.If)):
-                for c in (x for x in ast.walk(G.test) if isinstance(x, ast.Compare) and len(x.ops) == 1):
-                    op, left, right = c.ops[0], c.left, c.comparators[0]
-                    if isinstance(op, (ast.In, ast.NotIn)):
-                        s_txt = ast.unparse(right)
-                        if isinstance(right, ast.Attribute) and isinstance(right.value, ast.Name) and right.value.id == "self":
-                            out.append((f, "attr", s_txt, ast.unparse(left), G, c))
-                        elif isinstance(right, ast.Name) and right.id in params:
-                            out.append((f, "param", s_txt, ast.unparse(left), G, c))
-                    elif isinstance(op, (ast.Gt, ast.GtE, ast.Lt, ast.LtE)):
-                        for side in (left, right):
-                            if isinstance(side, ast.Name) and side.id in params[1:] and self._is_counter(f, side.id, scc):
-                                out.append((f, "depth", side.id, None, G, c))
-        return out
+def _in_big_stack(fn):
+    """the interpreter recurses ~10 Python frames per interpreted frame; emulating 1000 interpreted frames needs room"""
+    box = {}
 
-    def _is_counter(self, f, p, scc):
-        """p is passed on as `p + c` by some recursive call of f"""
-        for c in self.rec_calls(f, scc):
-            for a in list(c.args) + [k.value for k in c.keywords]:
-                if isinstance(a, ast.BinOp) and isinstance(a.op, ast.Add) and any(isinstance(x, ast.Name) and x.id == p for x in (a.left, a.right)):
-                    return True
-        return False
-
-    def check_scc(self, g, scc):
-        ctx = self.ctx
-        label = "recursion " + " -> ".join(scc)
-        anchor = self.funcs[scc[0]]
-        # the function that closes the cycle is the most useful place to point at
-        rec_sites = [(self.funcs[n], c) for n in scc for c in self.rec_calls(self.funcs[n], scc)]
-        cands = self.candidates(scc)
-        verdicts = []
-        for cand in cands:
-            verdicts.append((cand, self.verify(g, scc, cand)))
-        good = [v for v in verdicts if v[1] is None]
-        if good:
-            (f, kind, s_txt, k_txt, G, cmp_), _ = good[0]
-            ctx.check("cycle-guard", label, True, f, G.test, "",
-                      detail="checkpoint %s: `if %s` on state %s (%s); every cycle passes it, the state grows before each recursive call, "
-                             "is threaded through the SCC and created fresh at every entry" % (f.short, norm(G.test), s_txt, kind))
-            ctx.ob("self-reference", label, True, "subsumed by the visited-state certificate")
-            ctx.count("certified_sccs")
-            return
-        if verdicts:
-            # a guard exists but is incomplete: name what is missing
-            (f, kind, s_txt, k_txt, G, cmp_), (rule, why, node) = verdicts[0]
-            ctx.check(rule, label, False, f, "if %s" % norm(G.test),
-                      "the recursion %s has a visited-state test `%s` but it does not bound the recursion: %s" % (" -> ".join(scc), norm(G.test), why),
-                      node=node or G)
-        else:
-            closing = [fc for fc in rec_sites]
-            f0, c0 = closing[-1] if closing else (anchor, anchor.node)
-            ctx.check("cycle-guard", label, False, f0, "recursion cycle: " + " -> ".join(scc),
-                      "the mutually recursive methods %s follow resource references without any visited set or depth bound: "
-                      "a reference cycle A -> B -> A recurses until RecursionError" % ", ".join(scc), node=c0,
-                      witness=dict(scc=scc, recursive_calls=[norm(c) for _, c in rec_sites]))
-        self.self_reference(scc, rec_sites, label)
-
-    # ------------------------------------------------------------------ certificate
-    def verify(self, g, scc, cand):
-        """None if the candidate is a valid certificate, else (rule, reason, node)"""
-        f, kind, s_txt, k_txt, G, cmp_ = cand
-        sub = g.subgraph(scc).copy()
-        sub.remove_node(f.short)
-        if not nx.is_directed_acyclic_graph(sub):
-            return ("cycle-guard/not-on-every-cycle", "a cycle of the SCC avoids %s" % f.short, G)
-        cfg = CFG(f.node)
-        defs = Defs(f.node)
-        recs = [stmt_of(c, f.node) for c in self.rec_calls(f, scc)]
-        rec_calls = self.rec_calls(f, scc)
-        if not recs:
-            return ("cycle-guard/not-on-every-cycle", "%s makes no recursive call" % f.short, G)
-        # ---- check: polarity of the test
-        key = ast.unparse(cmp_)
-        if kind == "depth":
-            big, small = 10 ** 9, 0
-            try:
-                seen_v = {v for _, v in truths(G.test, {s_txt: big}, atom_ok=lambda e: s_txt not in ast.unparse(e))}
-                new_v = {v for _, v in truths(G.test, {s_txt: small}, atom_ok=lambda e: s_txt not in ast.unparse(e))}
-            except NotEvaluable as e:
-                raise AnalysisError("depth test `%s` left the analysable fragment (%s)" % (norm(G.test), e))
-        else:
-            is_in = isinstance(cmp_.ops[0], ast.In)
-            try:
-                seen_v = {v for _, v in truths(G.test, {key: is_in}, atom_ok=lambda e: key not in ast.unparse(e))}
-                new_v = {v for _, v in truths(G.test, {key: not is_in}, atom_ok=lambda e: key not in ast.unparse(e))}
-            except NotEvaluable as e:
-                raise AnalysisError("membership test `%s` left the analysable fragment (%s)" % (norm(G.test), e))
-        if len(seen_v) != 1:
-            return ("cycle-guard/check", "an already visited key does not decide the test `%s`" % norm(G.test), G)
-        seen = seen_v.pop()
-        for R in recs:
-            for _, t in branch_edges(cfg, G, seen):
-                if t is R or reach(cfg, t, R):
-                    return ("cycle-guard/check", "the recursive call `%s` is still reached when the key was already visited" % norm(R)[:70], R)
-            if reach(cfg, cfg.entry, R, avoid_edges=branch_edges(cfg, G, not seen)):
-                return ("cycle-guard/check", "the recursive call `%s` can be reached without passing the test" % norm(R)[:70], R)
-        if seen in new_v:
-            return ("cycle-guard/check", "the test `%s` also stops keys that were not visited" % norm(G.test), G)
-        # ---- grow
-        if kind == "depth":
-            for c in rec_calls:
-                if not self._passes_grown_depth(c, s_txt):
-                    return ("cycle-guard/grow", "the call `%s` does not pass %s + <positive constant>" % (norm(c)[:70], s_txt), c)
-        else:
-            grow = []
-            for n in walk_no_nested(f.node):
-                if isinstance(n, ast.Call) and isinstance(n.func, ast.Attribute) and n.func.attr in GROW and ast.unparse(n.func.value) == s_txt \
-                        and n.args and self._contains_key(n.args[0], k_txt):
-                    grow.append(stmt_of(n, f.node))
-                if isinstance(n, (ast.Assign, ast.AugAssign)) and ast.unparse(n.targets[0] if isinstance(n, ast.Assign) else n.target) == s_txt:
-                    v = n.value
-                    if self._is_union(v, s_txt, k_txt) or (isinstance(n, ast.AugAssign) and isinstance(n.op, ast.BitOr) and self._contains_key(v, k_txt)):
-                        grow.append(n)
-            for c, R in zip(rec_calls, recs):
-                passes_grown = kind == "param" and any(self._is_union(a, s_txt, k_txt) for a in list(c.args) + [k.value for k in c.keywords])
-                if passes_grown:
-                    continue
-                starts = [t for _, t in branch_edges(cfg, G, not seen)]
-                if not grow or any((t is not R and not any(t is a for a in grow) and reach(cfg, t, R, avoid_nodes=grow)) or t is R for t in starts):
-                    return ("cycle-guard/grow", "the key `%s` is not added to %s on every path from the test to the recursive call `%s` "
-                                                "(the visited state never grows)" % (k_txt, s_txt, norm(R)[:60]), R)
-            # shrink / re-create between grow and recursion
-            for n in walk_no_nested(f.node):
-                shrink = None
-                if isinstance(n, ast.Call) and isinstance(n.func, ast.Attribute) and n.func.attr in SHRINK and ast.unparse(n.func.value) == s_txt:
-                    shrink = stmt_of(n, f.node)
-                if isinstance(n, ast.Assign) and any(ast.unparse(t) == s_txt for t in n.targets) and not self._is_union(n.value, s_txt, k_txt) \
-                        and not self._none_init(n, s_txt):
-                    shrink = n
-                if shrink is not None:
-                    for a in grow:
-                        for R in recs:
-                            if reach(cfg, a, shrink) and reach(cfg, shrink, R) and not any(shrink is x for x in grow):
-                                return ("cycle-guard/grow", "`%s` shrinks or re-creates %s between the insertion of the key and the recursive call" % (norm(shrink)[:60], s_txt), shrink)
-            # the key must be stable between test and insertion
-            if k_txt and k_txt.isidentifier() and len(defs.of(k_txt)) > 0 and k_txt in f.params():
-                return ("cycle-guard/check", "the key `%s` is re-assigned inside %s" % (k_txt, f.short), G)
-        # ---- thread
-        if kind == "attr":
-            for n in scc:
-                h = self.funcs[n]
-                for a in walk_no_nested(h.node):
-                    if isinstance(a, (ast.Assign, ast.AugAssign)):
-                        tg = a.targets if isinstance(a, ast.Assign) else [a.target]
-                        if any(ast.unparse(t) == s_txt for t in tg) and not (isinstance(a, ast.Assign) and self._is_union(a.value, s_txt, k_txt)) \
-                                and not isinstance(a, ast.AugAssign):
-                            return ("cycle-guard/thread", "%s is re-created inside the recursion (`%s` in %s): the visited keys are forgotten" % (s_txt, norm(a)[:60], h.short), a)
-            # ---- fresh
-            attr = s_txt.split(".", 1)[1]
-            entries = 0
-            for name, h in self.funcs.items():
-                if name in scc:
-                    continue
-                hc = None
-                for c in self_calls(h.node):
-                    if c.func.attr in scc:
-                        entries += 1
-                        hc = hc or CFG(h.node)
-                        st = stmt_of(c, h.node)
-                        inits = [a for a in walk_no_nested(h.node) if isinstance(a, ast.Assign) and any(ast.unparse(t) == s_txt for t in a.targets) and is_fresh(a.value)]
-                        if not inits or reach(hc, hc.entry, st, avoid_nodes=inits):
-                            return ("cycle-guard/fresh", "%s enters the recursion (`%s`) without creating %s afresh: keys of an earlier resolution would still count as visited, "
-                                                         "or the attribute does not exist" % (h.short, norm(c)[:60], s_txt), c)
-            ext = self._external_entries(scc)
-            if ext:
-                return ("cycle-guard/fresh", "the recursion is entered from outside the class (%s) where %s is not initialised" % (ext[0], s_txt), G)
-            if not entries:
-                raise AnalysisError("no entry into the recursion %s found" % scc)
-        else:
-            why = self._threaded(scc, f, s_txt, kind)
-            if why:
-                return why
-        return None
-
-    @staticmethod
-    def _contains_key(e, k_txt):
-        return any(ast.unparse(n) == k_txt for n in ast.walk(e))
-
-    def _is_union(self, e, s_txt, k_txt):
-        """S | {K}, S.union({K}), {*S, K}, S + [K], S + (K,)"""
-        if isinstance(e, ast.BinOp) and isinstance(e.op, (ast.BitOr, ast.Add)):
-            sides = [ast.unparse(e.left), ast.unparse(e.right)]
-            other = e.right if sides[0] == s_txt else e.left if sides[1] == s_txt else None
-            return other is not None and self._contains_key(other, k_txt)
-        if isinstance(e, ast.Call) and isinstance(e.func, ast.Attribute) and e.func.attr == "union" and ast.unparse(e.func.value) == s_txt:
-            return any(self._contains_key(a, k_txt) for a in e.args)
-        if isinstance(e, (ast.Set, ast.List, ast.Tuple)):
-            star = any(isinstance(x, ast.Starred) and ast.unparse(x.value) == s_txt for x in e.elts)
-            return star and any(ast.unparse(x) == k_txt for x in e.elts)
-        return False
-
-    @staticmethod
-    def _none_init(assign, s_txt):
-        """`S = set()` under `if S is None`"""
-        p = parent(assign)
-        return isinstance(p, ast.If) and is_fresh(assign.value) and ast.unparse(p.test) in ("%s is None" % s_txt, "not %s" % s_txt)
-
-    @staticmethod
-    def _passes_grown_depth(c, d):
-        for a in list(c.args) + [k.value for k in c.keywords]:
-            if isinstance(a, ast.BinOp) and isinstance(a.op, ast.Add):
-                l, r = a.left, a.right
-                for x, y in ((l, r), (r, l)):
-                    if isinstance(x, ast.Name) and x.id == d and isinstance(y, ast.Constant) and isinstance(y.value, int) and y.value > 0:
-                        return True
-        return False
-
-    def _state_param_of(self, call, callee, value_names):
-        """which parameter of `callee` receives an argument that mentions one of value_names"""
-        ps = callee.params()[1:]
-        for i, a in enumerate(call.args):
-            if any(isinstance(n, ast.Name) and n.id in value_names for n in ast.walk(a)) and i < len(ps):
-                return ps[i]
-        for k in call.keywords:
-            if k.arg and any(isinstance(n, ast.Name) and n.id in value_names for n in ast.walk(k.value)):
-                return k.arg
-        return None
-
-    def _threaded(self, scc, fc, p, kind):
-        """parameter state: every call edge inside the SCC hands the state on; entries pass a fresh one"""
-        state = {fc.short: p}
-        todo = [fc.short]
-        while todo:
-            n = todo.pop()
-            h = self.funcs[n]
-            for c in self.rec_calls(h, scc):
-                callee = self.funcs[c.func.attr]
-                sp = self._state_param_of(c, callee, {state[n]})
-                if sp is None:
-                    return ("cycle-guard/thread", "the call `%s` in %s does not pass the state %s on" % (norm(c)[:60], h.short, state[n]), c)
-                if callee.short in state:
-                    if state[callee.short] != sp:
-                        return ("cycle-guard/thread", "the state reaches %s through different parameters" % callee.short, c)
-                else:
-                    state[callee.short] = sp
-                    todo.append(callee.short)
-            if n != fc.short:
-                d = Defs(h.node)
-                if d.of(state[n]):
-                    return ("cycle-guard/thread", "%s re-assigns the state parameter %s" % (h.short, state[n]), h.node)
-        missing = [n for n in scc if n not in state]
-        if missing:
-            return ("cycle-guard/thread", "the state is not threaded through %s" % ", ".join(missing), fc.node)
-        # entries
-        entries = 0
-        for name, h in self.funcs.items():
-            if name in scc:
-                continue
-            for c in self_calls(h.node):
-                if c.func.attr in scc:
-                    entries += 1
-                    callee = self.funcs[c.func.attr]
-                    sp = state[callee.short]
-                    ps = callee.params()[1:]
-                    arg = None
-                    if sp in ps and ps.index(sp) < len(c.args):
-                        arg = c.args[ps.index(sp)]
-                    for k in c.keywords:
-                        if k.arg == sp:
-                            arg = k.value
-                    if arg is None:
-                        dflt = self._default_of(callee, sp)
-                        ok = dflt is not None and (isinstance(dflt, ast.Constant) and (dflt.value is None or dflt.value == 0 or dflt.value == ())
-                                                   or (isinstance(dflt, ast.Call) and ast.unparse(dflt.func) == "frozenset" and not dflt.args)
-                                                   or (isinstance(dflt, ast.Tuple) and not dflt.elts))
-                        if dflt is not None and not ok:
-                            return ("cycle-guard/fresh", "the default `%s=%s` of %s is a shared mutable object: visited keys survive between resolutions"
-                                    % (sp, norm(dflt), callee.short), callee.node)
-                    else:
-                        ok = is_fresh(arg) or (isinstance(arg, ast.Constant) and arg.value in (0, None))
-                    if not ok:
-                        return ("cycle-guard/fresh", "%s enters the recursion (`%s`) without a fresh state" % (h.short, norm(c)[:60]), c)
-        if not entries:
-            raise AnalysisError("no entry into the recursion %s found" % scc)
-        if kind == "param":
-            # a None default must be normalised before the membership test
-            dflt = self._default_of(fc, p)
-            if isinstance(dflt, ast.Constant) and dflt.value is None:
-                if not any(isinstance(a, ast.Assign) and self._none_init(a, p) for a in walk_no_nested(fc.node)):
-                    return ("cycle-guard/fresh", "%s=None is never replaced by an empty container in %s" % (p, fc.short), fc.node)
-        return None
-
-    @staticmethod
-    def _default_of(f, p):
-        a = f.node.args
-        names = [x.arg for x in a.posonlyargs + a.args]
-        if p not in names:
-            for x, d in zip(a.kwonlyargs, a.kw_defaults):
-                if x.arg == p:
-                    return d
-            return None
-        i = names.index(p) - (len(names) - len(a.defaults))
-        return a.defaults[i] if i >= 0 else None
-
-    def _external_entries(self, scc):
-        out = []
-        names = set(scc)
-        for rel, mod in self.ctx.repo.modules.items():
-            for n in ast.walk(mod.tree):
-                if isinstance(n, ast.Call) and isinstance(n.func, ast.Attribute) and n.func.attr in names:
-                    if not (isinstance(n.func.value, ast.Name) and n.func.value.id == "self"):
-                        if n.func.attr.startswith("put_") or n.func.attr.startswith("_resolve"):
-                            out.append("%s:%d %s" % (rel, n.lineno, norm(n)[:50]))
-        return out
-
-    # ------------------------------------------------------------------ length-one data guard
-    def self_reference(self, scc, rec_sites, label):
-        ctx = self.ctx
-        # the call edges that close a cycle back to the function that looks resources up
-        g = self.graph()
-        # re-entrant edges: calls (inside the SCC) of a function through which the SCC is entered from outside
-        entry = {n for n in scc if any(p not in scc for p in g.predecessors(n))} or set(scc)
-        for f, c in rec_sites:
-            callee = self.funcs[c.func.attr]
-            if callee.short not in entry:
-                continue
-            # only edges that carry a *new* resource id matter: the id argument is not a parameter passed through
-            cfg = CFG(f.node)
-            defs = Defs(f.node)
-            R = stmt_of(c, f.node)
-            # arguments that carry a new value: not a parameter handed on, not self.<attr>, not a constant
-            new_ids = [a for a in c.args if not (isinstance(a, ast.Name) and a.id in f.params() and not defs.of(a.id))
-                       and not (isinstance(a, ast.Attribute) and isinstance(a.value, ast.Name) and a.value.id == "self")
-                       and not isinstance(a, ast.Constant)]
-            if not new_ids:
-                continue
-            ctx.count("reference_edges")
-            keys = set()
-            for a in new_ids:
-                keys.add(ast.unparse(a))
-                if isinstance(a, ast.Name):
-                    keys |= {ast.unparse(d[1]) for d in defs.of(a.id)}
-                else:
-                    for k, ds in defs.defs.items():
-                        if any(d[0] == "assign" and ast.unparse(d[1]) == ast.unparse(a) for d in ds):
-                            keys.add(k)
-            ok = False
-            shown = None
-            for G in (x for x in walk_no_nested(f.node) if isinstance(x, ast.If)):
-                for cmp_ in (x for x in ast.walk(G.test) if isinstance(x, ast.Compare) and len(x.ops) == 1 and isinstance(x.ops[0], (ast.Eq, ast.NotEq))):
-                    sides = [cmp_.left, cmp_.comparators[0]]
-                    mine = [s for s in sides if ast.unparse(s) in keys]
-                    other = [s for s in sides if s not in mine]
-                    if len(mine) != 1 or len(other) != 1:
-                        continue
-                    o = other[0]
-                    # the other side: something read from a parameter (the entry being expanded), possibly through a local copy
-                    if isinstance(o, ast.Name) and len(defs.of(o.id)) == 1 and defs.of(o.id)[0][0] == "assign":
-                        o = defs.of(o.id)[0][1]
-                    root = o
-                    while isinstance(root, (ast.Attribute, ast.Call, ast.Subscript)):
-                        root = root.value if not isinstance(root, ast.Call) else root.func
-                    if isinstance(o, ast.Name) or not (isinstance(root, ast.Name) and root.id in f.params() and root.id != "self"):
-                        continue
-                    key = ast.unparse(cmp_)
-                    is_eq = isinstance(cmp_.ops[0], ast.Eq)
-                    try:
-                        eq_v = {v for _, v in truths(G.test, {key: is_eq}, atom_ok=lambda e: key not in ast.unparse(e))}
-                        ne_v = {v for _, v in truths(G.test, {key: not is_eq}, atom_ok=lambda e: key not in ast.unparse(e))}
-                    except NotEvaluable:
-                        continue
-                    shown = G
-                    if len(eq_v) != 1:
-                        continue
-                    v = eq_v.pop()
-                    stops = all(not (t is R or reach(cfg, t, R)) for _, t in branch_edges(cfg, G, v))
-                    gates = not reach(cfg, cfg.entry, R, avoid_edges=branch_edges(cfg, G, not v))
-                    if stops and gates:
-                        ok = True
-                        shown = G
-                        break
-                if ok:
-                    break
-            ctx.check("self-reference", "%s: %s -> %s" % (label, f.short, callee.short), ok, f,
-                      ("if %s" % norm(shown.test)) if (shown is not None and not ok) else (shown.test if ok else "self-reference guard before %s -> %s" % (f.short, callee.short)),
-                      "a resource item that references its own entry is followed again: no test `<referenced id> == <id of the entry being expanded>` "
-                      "whose equal arm leaves before the recursive call %s -> %s" % (f.short, callee.short), node=shown or c,
-                      detail="`if %s`: when the referenced id equals the id of the entry being expanded the recursive call is not reached" % (norm(shown.test) if shown is not None else "?"))
-
-
-OWN_MUTATION_ADEQUACY = True   # thorough() below mutates the anchored functions in memory (pathkit.run_mutants)
+    def target():
+        old = sys.getrecursionlimit()
+        sys.setrecursionlimit(60000)
+        try:
+            box["r"] = fn()
+        except BaseException as e:     # re-raised in the caller's thread
+            box["e"] = e
+        finally:
+            sys.setrecursionlimit(old)
+    old_size = threading.stack_size()
+    try:
+        threading.stack_size(512 * 1024 * 1024)
+        t = threading.Thread(target=target)
+        t.start()
+        t.join()
+    finally:
+        threading.stack_size(old_size)
+    if "e" in box:
+        raise box["e"]
+    return box.get("r")
 
 
 def core(ctx):
-    return Core(ctx).run()
+    return _in_big_stack(lambda: Core(ctx).run())
 
 
 def run(ctx):
     ctx.explanation = __doc__
     core(ctx)
     ctx.floor("resolver_methods", 5)
-    ctx.floor("recursive_sccs", 1)
-    if not ctx.counts.get("certified_sccs"):
-        ctx.floor("reference_edges", 1)
+    ctx.floor("tables", 2)
+    ctx.assume("CPython's default recursion limit (1000 frames); frames of resolve()'s callers are not counted (5 frames reserved)")
+    ctx.assume("entries are instances of the repository's ARSCResTableEntry/ARSCComplex/ARSCResStringPoolRef with their fields set; "
+               "format_value is replaced by a label (C27 decides formatting)")
     fixture(ctx)
     if ctx.tier == "thorough":
         thorough(ctx)
 
 
-# ---------------------------------------------------------------------------- fixture: the rule accepts a correct guard
+# ---------------------------------------------------------------------------- fixtures: the rule's own teeth, on every run
 FIXTURE_GOOD = '''
 class ResourceResolver:
-    def resolve(self, res_id):
-        result = []
-        self._seen = set()
-        self._walk(result, res_id)
-        return result
+    def __init__(self, android_resources, config=None):
+        self.resources = android_resources
+        self.wanted_config = config
 
-    def _walk(self, result, res_id):
-        if res_id in self._seen:
-            return
-        self._seen.add(res_id)
-        for ate in self.resources.get(res_id):
-            self._put(result, ate)
-        self._seen.discard(res_id)
-
-    def _put(self, result, ate):
-        if ate.is_reference():
-            self._walk(result, ate.get_data())
-        else:
-            result.append(ate.value())
-'''
-FIXTURE_BAD = FIXTURE_GOOD.replace("        self._seen.add(res_id)\n", "")
-FIXTURE_PARAM = '''
-class ResourceResolver:
-    def resolve(self, res_id):
-        result = []
-        self._walk(result, res_id, frozenset())
-        return result
-
-    def _walk(self, result, res_id, seen):
-        if res_id in seen:
-            return
-        for ate in self.resources.get(res_id):
-            self._put(result, ate, seen | {res_id})
-
-    def _put(self, result, ate, seen):
-        if ate.is_reference():
-            self._walk(result, ate.get_data(), seen)
-        else:
-            result.append(ate.value())
-'''
-FIXTURE_DEPTH = '''
-class ResourceResolver:
     def resolve(self, res_id):
         result = []
         self._walk(result, res_id, 0)
@@ -578,41 +361,38 @@ class ResourceResolver:
 
     def _walk(self, result, res_id, depth):
         if depth > 32:
-            raise ValueError("reference chain too deep")
-        for ate in self.resources.get(res_id):
-            if ate.is_reference():
-                self._walk(result, ate.get_data(), depth + 1)
+            return
+        for config, ate in self.resources.get_res_configs(res_id, self.wanted_config):
+            item = ate.key
+            if item.data_type == 1:
+                self._walk(result, item.data, depth + 1)
+            else:
+                result.append((config, item.format_value()))
 '''
+FIXTURE_BAD = FIXTURE_GOOD.replace("        if depth > 32:\n            return\n", "")
 
 
 def _fixture_run(ctx, text):
     from ..pathkit import Sink
-
-    class _M:
-        relpath = "fixtures/c29_fixture.py"
+    s = Sink(ctx)
     tree = ast.parse(text)
     link_parents(tree)
-    m = _M()
-    m.tree = tree
-    s = Sink(ctx)
     c = Core.__new__(Core)
     c.ctx = s
-    c.m = m
-    c.cls = tree.body[0]
-    c.funcs = {n.name: F(m, c.cls, n, "") for n in c.cls.body if isinstance(n, ast.FunctionDef)}
-    c._external_entries = lambda scc: []
-    c.run()
+    c.m = ctx.mod(AXML)
+    c.cls_node, c.outer = tree.body[0], ""
+    c.funcs = {n.name: F(c.m, c.cls_node, n, "") for n in c.cls_node.body if isinstance(n, ast.FunctionDef)}
+    c.only_tables = ("cycle of length 2", "chain")
+    _in_big_stack(c.run)
     return s
 
 
 def fixture(ctx):
-    """positive and negative examples evaluated on every run: the rule must accept the three
-    certificate shapes and reject a guard that never grows"""
-    for name, text, want_ok in (("self-attribute visited set", FIXTURE_GOOD, True), ("parameter-threaded visited set", FIXTURE_PARAM, True),
-                                ("depth counter", FIXTURE_DEPTH, True), ("membership test without insertion", FIXTURE_BAD, False)):
+    for name, text, want_ok in (("depth-bounded resolver", FIXTURE_GOOD, True), ("unguarded resolver", FIXTURE_BAD, False)):
         s = _fixture_run(ctx, text)
-        fired = bool(s.findings)
-        ctx.ob("fixture", name, fired != want_ok, "fixture %s: %s" % (name, "accepted" if not fired else "rejected: " + s.findings[0].rule))
+        term = [f for f in s.findings if f.rule == "terminates"]
+        fired = bool(term)
+        ctx.ob("fixture", name, fired != want_ok, "fixture %s: %s" % (name, "terminates on all tables" if not fired else "%d tables do not terminate" % len(term)))
         if fired == want_ok:
             raise AnalysisError("fixture `%s` is %s by the rule (self-check of the checker failed)" % (name, "rejected" if fired else "accepted"))
 
@@ -622,68 +402,24 @@ def thorough(ctx):
     c = Core(_sink(ctx))
     fs = c.funcs     # run_mutants swaps .node of these objects; Core(sink, fs) reads them
 
-    def core_with(funcs):
-        def run_(sink):
-            Core(sink, funcs).run()
-        return run_
+    def core_with(sink):
+        return _in_big_stack(lambda: Core(sink, fs).run())
 
-    def drop_self_ref(fn):
-        for s in ast.walk(fn):
-            if isinstance(s, ast.If) and any(isinstance(x, ast.Compare) and isinstance(x.ops[0], ast.Eq) and "mResId" in ast.unparse(x) for x in ast.walk(s.test)):
-                s.body = [ast.Pass()]
-                return
-        raise LookupError
+    # locate the visited-state guard (only to aim the mutants; the rule itself does not depend on it)
+    guard = None
+    for name, f in fs.items():
+        for G in (x for x in walk_no_nested(f.node) if isinstance(x, ast.If)):
+            for cmp_ in (x for x in ast.walk(G.test) if isinstance(x, ast.Compare) and len(x.ops) == 1 and isinstance(x.ops[0], (ast.In, ast.NotIn))):
+                guard = guard or (f, ast.unparse(cmp_.comparators[0]), ast.unparse(cmp_.left), ast.unparse(G.test))
+    if guard is None:
+        ctx.note("no membership guard found: in-memory mutants are not aimed (adequacy is covered by the fixtures)")
+        ctx.extra.update(mutants_killed=0, mutants_total=0, benign_silent=0, benign_total=0)
+        return
+    fc, s_txt, k_txt, test_txt = guard
 
-    def invert_self_ref(fn):
-        for x in ast.walk(fn):
-            if isinstance(x, ast.Compare) and isinstance(x.ops[0], ast.Eq) and "mResId" in ast.unparse(x):
-                x.ops = [ast.NotEq()]
-                return
-        raise LookupError
-
-    def extra_edge(fn):
-        fn.body.append(ast.parse("self._resolve_into_result(result, ate.get_parent_id(), config)").body[0])
-
-    probe = _sink(ctx)
-    Core(probe, fs).run()
-    if probe.counts.get("certified_sccs"):
-        return thorough_certified(ctx, fs, core_with)
-    mutants = [
-        ("put_item_value: self-reference guard no longer returns", fs["put_item_value"], drop_self_ref),
-        ("put_item_value: self-reference comparison inverted", fs["put_item_value"], invert_self_ref),
-        ("put_ate_value: new unguarded reference edge", fs["put_ate_value"], extra_edge),
-    ]
-    benign = [
-        ("put_item_value: locals renamed", fs["put_item_value"], rename_locals()),
-        ("put_item_value: if/else arms flipped", fs["put_item_value"], flip_ifs()),
-        ("_resolve_into_result: locals renamed", fs["_resolve_into_result"], rename_locals()),
-    ]
-    run_mutants(ctx, core_with(fs), mutants, benign)
-
-
-def thorough_certified(ctx, fs, core_with):
-    """the tree carries a visited-state certificate: break each of its parts in memory"""
-    probe = _sink(ctx)
-    c = Core(probe, fs)
-    g = c.graph()
-    import networkx as nx_
-    certs = []
-    for scc in (sorted(x) for x in nx_.strongly_connected_components(g) if len(x) > 1):
-        for cand in c.candidates(scc):
-            if c.verify(g, scc, cand) is None:
-                certs.append((scc, cand))
-    if not certs:
-        raise AnalysisError("certified SCC without a verifiable candidate")
-    scc, (fc, kind, s_txt, k_txt, G, cmp_) = certs[0]
-    test_txt = ast.unparse(G.test)
-
-    def is_grow(n):
+    def is_call(n, names):
         return isinstance(n, ast.Expr) and isinstance(n.value, ast.Call) and isinstance(n.value.func, ast.Attribute) \
-            and n.value.func.attr in GROW and ast.unparse(n.value.func.value) == s_txt
-
-    def is_shrink(n):
-        return isinstance(n, ast.Expr) and isinstance(n.value, ast.Call) and isinstance(n.value.func, ast.Attribute) \
-            and n.value.func.attr in SHRINK and ast.unparse(n.value.func.value) == s_txt
+            and n.value.func.attr in names and ast.unparse(n.value.func.value) == s_txt
 
     def edit_blocks(fn, f):
         done = 0
@@ -697,7 +433,7 @@ def thorough_certified(ctx, fs, core_with):
 
     def drop_grow(fn):
         def f(b):
-            k = [x for x in b if is_grow(x)]
+            k = [x for x in b if is_call(x, ("add", "append"))]
             for x in k:
                 b[b.index(x)] = ast.Pass()
             return len(k)
@@ -707,7 +443,6 @@ def thorough_certified(ctx, fs, core_with):
         for n in ast.walk(fn):
             if isinstance(n, ast.If) and ast.unparse(n.test) == test_txt:
                 n.body = [x for x in n.body if not isinstance(x, (ast.Return, ast.Raise))] or [ast.Pass()]
-                n.orelse = [x for x in n.orelse if not isinstance(x, (ast.Return, ast.Raise))]
                 return
         raise LookupError
 
@@ -724,7 +459,7 @@ def thorough_certified(ctx, fs, core_with):
 
     def shrink_early(fn):
         def f(b):
-            k = [x for x in b if is_grow(x)]
+            k = [x for x in b if is_call(x, ("add", "append"))]
             for x in k:
                 b.insert(b.index(x) + 1, ast.parse("%s.discard(%s)" % (s_txt, k_txt)).body[0])
             return len(k)
@@ -732,14 +467,14 @@ def thorough_certified(ctx, fs, core_with):
 
     def other_key(fn):
         for n in ast.walk(fn):
-            if is_grow(n):
+            if is_call(n, ("add", "append")):
                 n.value.args = [ast.Constant(value=0)]
                 return
         raise LookupError
 
-    def no_fresh(fn):
+    def never_discard(fn):
         def f(b):
-            k = [x for x in b if isinstance(x, ast.Assign) and ast.unparse(x.targets[0]) == s_txt]
+            k = [x for x in b if is_call(x, ("discard", "remove"))]
             for x in k:
                 b[b.index(x)] = ast.Pass()
             return len(k)
@@ -751,14 +486,10 @@ def thorough_certified(ctx, fs, core_with):
         ("%s: membership test removed" % fc.short, fc, guard_removed),
         ("%s: key discarded right after insertion" % fc.short, fc, shrink_early),
         ("%s: a constant is added instead of the key" % fc.short, fc, other_key),
+        ("%s: state re-created on every call" % fc.short, fc, recreate),
     ]
-    if kind == "attr":
-        mutants.append(("%s: state re-created on every call" % fc.short, fc, recreate))
-        for name, h in fs.items():
-            if name not in scc and any(isinstance(x, ast.Assign) and ast.unparse(x.targets[0]) == s_txt for x in ast.walk(h.node)) and name != "__init__":
-                mutants.append(("%s: state no longer created at the entry" % name, h, no_fresh))
-    benign = [("%s: locals renamed" % n, fs[n], rename_locals()) for n in scc] + [("%s: if/else arms flipped" % n, fs[n], flip_ifs()) for n in scc]
-    run_mutants(ctx, core_with(fs), mutants, benign)
+    benign = [("%s: locals renamed" % n, f, rename_locals()) for n, f in fs.items()] + [("%s: if/else arms flipped" % n, f, flip_ifs()) for n, f in fs.items()]
+    run_mutants(ctx, core_with, mutants, benign)
 
 
 def _sink(ctx):
